@@ -33,6 +33,10 @@ def units(ctx):
     for n in nums:
         for d in dens:
             yield (n, d)
+    # fine denominators whose bar is still a whole number of ticks (x/32, even x/64)
+    for n, d in ((1, 32), (3, 32), (5, 32), (2, 64), (4, 64), (6, 64), (10, 64), (14, 64)):
+        if (n, d) not in [(a, b) for a in nums for b in dens]:
+            yield (n, d)
     yield from hist.hist_units()
     yield ("long", 0)
     for n, d in ((4, 4), (3, 4), (12, 8), (3, 2)):
